@@ -483,6 +483,33 @@ Definition spec_match (sp : spec) (name : bytes) : option bytes :=
       match strip_prefix ps name with Some rest => Some (pd ++ rest) | None => None end
   | _, _ => if bytes_eqb (sp_src sp) name then Some (sp_dst sp) else None
   end.
+(* gix-refspec spec.rs: RefSpecRef::prefix / expand_prefixes for a fetch spec's source (after the fix: a glob
+   without a second component such as `refs/*` yields what is in front of the asterisk) *)
+Definition slash : byte := x2f.
+Fixpoint find_byte (b : byte) (l : bytes) (i : nat) : option nat :=
+  match l with [] => None | c :: r => if beqb c b then Some i else find_byte b r (S i) end.
+Definition spec_prefix (src : bytes) : option bytes :=
+  if bytes_eqb src (bs "HEAD") then Some src else
+  match strip_prefix (bs "refs/") src with
+  | None => None
+  | Some suffix =>
+      match find_byte slash suffix 0 with
+      | None => None
+      | Some pos => let p := firstn (5 + pos + 1) src in if existsb (beqb star) p then None else Some p
+      end
+  end.
+Definition expand_prefixes (src : bytes) : list bytes :=
+  match spec_prefix src with
+  | Some p => [p]
+  | None =>
+      match strip_prefix (bs "refs/") src with
+      | Some rest =>
+          if existsb (beqb slash) rest then []
+          else [match find_byte star src 0 with Some pos => firstn pos src | None => src end]
+      | None => []            (* partial names and object ids are outside the modelled family *)
+      end
+  end.
+
 Definition same_mapping (a b : mapping) : bool :=
   bytes_eqb (rname (mp_remote a)) (rname (mp_remote b)) && bytes_eqb (mp_local a) (mp_local b).
 Fixpoint push_unique (acc : list mapping) (m : mapping) : list mapping :=    (* acc is in order *)
